@@ -63,7 +63,7 @@ def path(c, job):
         c.prove("C18.units constants", s_close_rel(u.convert(a, b, x), x * (M_PER[na] / M_PER[nb])), info=dict(units=job["units"]))
         return
     if kind == "chain":
-        # user-defined unit chains: depth <= 4 below the root, concrete factors
+        # user-defined unit chains: depth <= 12 below the root, concrete factors
         f = job["factors"]
         root = u.Unit(base_unit=None, base_to_unit=lambda v: None, unit_to_base=lambda v: None)
         chain = [root]
@@ -72,7 +72,8 @@ def path(c, job):
         side = u.Unit(base_unit=chain[1] if len(chain) > 1 else root, base_to_unit=lambda v: v * 7, unit_to_base=lambda v: v / 7)
         x = c.real("x", -10 ** 6, 10 ** 6)
         c.reach("chain")
-        for a, b, d in itertools.permutations(chain[-3:] + [side], 3):
+        picks = chain[-3:] + [side] if len(chain) <= 6 else [chain[0], chain[1], chain[len(chain) // 2], chain[-2], chain[-1], side]
+        for a, b, d in itertools.permutations(picks, 3):
             c.prove("C18.chain inverse", s_close_rel(u.convert(b, a, u.convert(a, b, x)), x))
             c.prove("C18.chain path-independent", s_close_rel(u.convert(b, d, u.convert(a, b, x)), u.convert(a, d, x)))
         prod = 1
@@ -214,7 +215,7 @@ class C18(Spec):
     def jobs(self, tier):
         names = ["meter", "centimeter", "foot", "inch"]
         j = [dict(kind="triple", units=list(t)) for t in itertools.product(names, repeat=3)]
-        chains = [[3], [3, 0.5], [3, 0.5, 7.25], [2.54, 12, 3, 1760]]
+        chains = [[3], [3, 0.5], [3, 0.5, 7.25], [2.54, 12, 3, 1760], [2, 3, 0.5, 7, 1.5, 0.25, 5, 1.25, 9, 0.2, 11, 13]]
         if tier != "quick":
             chains += [[0.001, 1000, 0.3048, 12, 72], [2, 2, 2, 2, 2, 2], [1e-9, 1e9], [1 / 3, 3, 7, 1 / 7], [1852, 1 / 1852, 3.2808]]
         j += [dict(kind="chain", factors=f) for f in chains]
@@ -225,7 +226,7 @@ class C18(Spec):
         return j
 
     def bounds(self, tier):
-        return dict(units="all 64 ordered triples of the 4 defined units; user chains of depth 1-4", values="every real in [-1e6,1e6]",
+        return dict(units="all 64 ordered triples of the 4 defined units; user chains of depth 1-12", values="every real in [-1e6,1e6]",
                     sensors="period in [0,1] s, voltage in [-10,10] V, supply in [-10,10] V, calibration pressure in [0,500]")
 
     def reach_required(self, tier):
